@@ -75,7 +75,12 @@ pub fn build_config(cfg: &LCfg, sink: &Sink, tag: &str) -> Result<Config, String
 
 /// `failing[i]`: the i-th declared appender reports an error after recording the delivery.
 pub fn build_config_failing(cfg: &LCfg, sink: &Sink, tag: &str, failing: &[bool]) -> Result<Config, String> {
-    let mut b = Config::builder();
+    build_config_extra(cfg, sink, tag, failing, vec![])
+}
+
+/// `extra`: further declared appenders that no logger references.
+pub fn build_config_extra(cfg: &LCfg, sink: &Sink, tag: &str, failing: &[bool], extra: Vec<Appender>) -> Result<Config, String> {
+    let mut b = Config::builder().appenders(extra);
     for (i, a) in cfg.appenders.iter().enumerate() {
         b = b.appender(Appender::builder().build(
             a.clone(),
